@@ -77,13 +77,14 @@ var smPkgs = map[string]bool{
 }
 
 type Engine struct {
-	Dir       string
-	transient map[*types.TypeName]bool
-	Pkgs      []*packages.Package
-	ByPath    map[string]*packages.Package
-	Prog      *ssa.Program
-	SSA       map[string]*ssa.Package
-	Fset      *token.FileSet
+	writesMemo map[*ssa.Function]bool
+	Dir        string
+	transient  map[*types.TypeName]bool
+	Pkgs       []*packages.Package
+	ByPath     map[string]*packages.Package
+	Prog       *ssa.Program
+	SSA        map[string]*ssa.Package
+	Fset       *token.FileSet
 
 	// all source functions (incl. anonymous) in SM packages, app and staking keeper
 	SrcFuncs []*ssa.Function
